@@ -6,7 +6,7 @@ import srvprops
 from common import VERIF
 
 PROP = "C07"
-THEOREMS = ["C07_alnum_is_not_space_nor_at", "C07_local_nid_wellformed", "C07_no_space_no_at", "C07_never_bare_domain", "C07_assigned_in_reachable_states", "C07_unique_while_live", "C07_needs_no_auth_witness", "C07_name_free_again", "C07_sender_identity_in_messages"]
+THEOREMS = ["C07_alnum_is_not_space_nor_at", "C07_local_nid_wellformed", "C07_no_space_no_at", "C07_never_bare_domain", "C07_assigned_in_reachable_states", "C07_unique_while_live", "C07_needs_no_auth_witness", "C07_name_free_again", "C07_sender_identity_in_messages", "C07_at_most_one_thread_wins_a_name", "C07_exactly_one_wins_once_all_have_tried", "C07_check_then_insert_two_winners_refuted", "C07_source_exclusive_check_under_entry_guard"]
 
 WS = [0x20, 0x09, 0x0A, 0x0B, 0x0C, 0x0D, 0x85, 0xA0, 0x1680, 0x2000, 0x2003, 0x200A, 0x2028, 0x2029, 0x202F, 0x205F, 0x3000]
 ALNUM = [0x41, 0x7A, 0x30, 0xE9, 0x3A9, 0x4E2D, 0x0661, 0x1D7D8, 0x10400, 0xAA, 0xB2, 0x2160]
